@@ -2604,11 +2604,14 @@ class Tree:
         """
         Call into the fast but limited C implementation of the newick conversion.
         """
-        root_time = max(1, self.time(root))
-        max_label_size = math.ceil(math.log10(self.tree_sequence.num_nodes))
-        single_node_size = (
-            5 + max_label_size + math.ceil(math.log10(root_time)) + precision
-        )
+        # The longest possible branch below root spans from the youngest node
+        # in the tree sequence to the root, whatever the sign of the node times.
+        times = self.tree_sequence.nodes_time
+        max_branch = max(1, self.time(root) - (times.min() if len(times) > 0 else 0))
+        int_digits = len(str(int(max_branch)))
+        max_label_size = len(str(self.tree_sequence.num_nodes))
+        # "(", ")", ",", ":", "n" and "." plus the label and branch length digits
+        single_node_size = 6 + max_label_size + int_digits + precision
         buffer_size = 1 + single_node_size * self.tree_sequence.num_nodes
         return self._ll_tree.get_newick(
             precision=precision,
